@@ -58,6 +58,69 @@ fn obs(pool: &[H], mon: &mut Mon, k: usize) -> Vec<i64> {
 }
 
 pub fn run(_params: &[i64], ops: &Rows, mon: &mut Mon) -> Rows {
+    exec(ops, None, mon)
+}
+
+/// kinds only: what one thread can observe deterministically while other threads change the counts
+fn obs_kinds(pool: &[H], roots: &[Option<Arc<Tok>>], mon: &mut Mon, k: usize) -> Vec<i64> {
+    let mut row = Vec::new();
+    for h in pool {
+        row.push(match h { H::Dead => 0, H::A(a) => if a.as_ref().is_some() { 2 } else { 1 }, H::OA(a) => if a.as_ref().is_some() { 2 } else { 1 }, H::S(_) | H::OS(_) => 3, H::Std(_) => 4 });
+    }
+    // this thread's own handles plus the root are a lower bound of the shared count
+    let ptrs: Vec<*const Tok> = pool.iter().filter_map(target).collect();
+    for r in roots.iter().flatten() {
+        let p = Arc::as_ptr(r);
+        let mine = ptrs.iter().filter(|q| **q == p).count();
+        let c = Arc::strong_count(r);
+        if c < mine + 1 { mon.fail(format!("op{} strong count {} below this thread's {} live handles plus the root", k, c, mine)); break; }
+    }
+    row
+}
+
+/// C10, concurrent part: '110 <threads> <rounds> | history' — every thread runs the SAME history `rounds` times on a pool of its own, but the
+/// allocations are shared: creation op k hands every thread a clone of one root Arc made for op k.  Per thread and round the result rows and the
+/// handle kinds are deterministic (they do not depend on the counts) and must equal those of the sequential model; no payload may be destroyed
+/// while the roots are alive; after all threads are done every root's strong count is 1 again and dropping the roots destroys every payload once.
+pub fn run_threads(params: &[i64], ops: &Rows, mon: &mut Mon) -> Rows {
+    let t = params.get(0).copied().unwrap_or(4).clamp(2, 16) as usize;
+    let rounds = params.get(1).copied().unwrap_or(10).clamp(1, 1000) as usize;
+    let roots: Vec<Option<Arc<Tok>>> = ops.iter().map(|op| if matches!(op[0], 0 | 1 | 2) { Some(Arc::new(Tok::mk(op[2]))) } else { None }).collect();
+    let vals: Vec<i64> = ops.iter().filter(|op| matches!(op[0], 0 | 1 | 2)).map(|op| op[2]).collect();
+    let d = crate::alloc::domain(0);
+    let barrier = std::sync::Barrier::new(t);
+    let results: Vec<(Rows, Vec<String>)> = std::thread::scope(|s| {
+        let hs: Vec<_> = (0..t).map(|_| s.spawn(|| {
+            barrier.wait();
+            let mut m = Mon::default();
+            let mut first: Option<Rows> = None;
+            for r in 0..rounds {
+                let rows = exec(ops, Some(&roots), &mut m);
+                match &first { None => first = Some(rows), Some(f) => if *f != rows { m.fail(format!("round {} observed other results than round 0", r)); } }
+            }
+            (first.unwrap_or_default(), m.fails)
+        })).collect();
+        hs.into_iter().map(|h| h.join().unwrap_or_else(|_| (vec![vec![-9]], vec!["a thread panicked".to_string()]))).collect()
+    });
+    crate::alloc::domain(d);
+    for (k, (rows, fails)) in results.iter().enumerate() {
+        for f in fails.iter().take(3) { mon.fail(format!("thread{}: {}", k, f)); }
+        if *rows != results[0].0 { mon.fail(format!("thread {} observed other results than thread 0", k)); }
+    }
+    for (i, r) in roots.iter().enumerate() {
+        if let Some(a) = r { if Arc::strong_count(a) != 1 { mon.fail(format!("the allocation of op{} has strong count {} after every thread released its handles (expected 1: the root)", i, Arc::strong_count(a))); } }
+    }
+    let early = take_drops();
+    if !early.is_empty() { mon.fail(format!("payloads {:?} destroyed while their roots were alive", early)); }
+    // a wrong count would make this a use after free: only release the roots whose count is right
+    for r in roots.into_iter().flatten() { if Arc::strong_count(&r) == 1 { drop(r); } else { std::mem::forget(r); } }
+    let (mut got, mut want) = (take_drops(), vals);
+    got.sort(); want.sort();
+    if got != want && mon.fails.is_empty() { mon.fail(format!("payloads destroyed at the end {:?}, created {:?}", got, want)); }
+    results.into_iter().next().map(|r| r.0).unwrap_or_default()
+}
+
+fn exec(ops: &Rows, roots: Option<&[Option<Arc<Tok>>]>, mon: &mut Mon) -> Rows {
     let mut out: Rows = Vec::new();
     let mut pool: Vec<H> = Vec::new();
     let _ = take_drops();
@@ -77,9 +140,9 @@ pub fn run(_params: &[i64], ops: &Rows, mon: &mut Mon) -> Rows {
         let take = |pool: &mut Vec<H>, i: usize| -> H { if i < pool.len() { std::mem::replace(&mut pool[i], H::Dead) } else { H::Dead } };
         let mut res: Option<Option<H>> = None; // None = rejected; Some(None) = ok, no new slot; Some(Some(h)) = new slot
         match c {
-            0 => res = Some(Some(H::A(CArc::from(Tok::mk(op[2]))))),
-            1 => res = Some(Some(H::S(CArcSome::from(Tok::mk(op[2]))))),
-            2 => res = Some(Some(H::Std(Arc::new(Tok::mk(op[2]))))),
+            0 => res = Some(Some(H::A(match roots { None => CArc::from(Tok::mk(op[2])), Some(r) => CArc::from(r[k].clone().unwrap()) }))),
+            1 => res = Some(Some(H::S(match roots { None => CArcSome::from(Tok::mk(op[2])), Some(r) => CArcSome::from(r[k].clone().unwrap()) }))),
+            2 => res = Some(Some(H::Std(match roots { None => Arc::new(Tok::mk(op[2])), Some(r) => r[k].clone().unwrap() }))),
             3 => { let i = slot(op[1]); match take(&mut pool, i) { H::Std(a) => res = Some(Some(H::A(if k % 2 == 0 { CArc::from(a) } else { CArc::from(Some(a)) }))), o => { if i < pool.len() { pool[i] = o; } } } }
             4 => { let i = slot(op[1]); match take(&mut pool, i) { H::Std(a) => res = Some(Some(H::S(CArcSome::from(a)))), o => { if i < pool.len() { pool[i] = o; } } } }
             5 => res = Some(Some(H::A(if k % 2 == 0 { CArc::from(None::<Arc<Tok>>) } else { CArc::default() }))),
@@ -121,8 +184,10 @@ pub fn run(_params: &[i64], ops: &Rows, mon: &mut Mon) -> Rows {
             Some(Some(h)) => { pool.push(h); vec![c, 1, pool.len() as i64 - 1] }
         };
         out.push(row);
-        out.push(take_drops());
-        out.push(obs(&pool, mon, k));
+        match roots {
+            None => { out.push(take_drops()); out.push(obs(&pool, mon, k)); }
+            Some(r) => { let ds = take_drops(); if !ds.is_empty() { mon.fail(format!("op{} destroyed payloads {:?} although their roots are alive", k, ds)); } out.push(obs_kinds(&pool, r, mon, k)); }
+        }
         k += 1;
     }
     out
